@@ -41,30 +41,13 @@ theorem C16_rename_joint (π : Var → Var) (fs : List Factor) (a : Asg) :
     original network plus unobserved leaf CPDs `__X` (each normalised, each on a fresh
     variable that occurs in no other factor).  Summing those leaves out gives back the original
     joint, so every later answer equals a fresh engine's answer. -/
-theorem C16_engine_history (K : Var → Nat) (fs : List Factor) :
-    ∀ (leaves : List (Var × Factor)),
-      (∀ p ∈ leaves, ∀ a, Bounded K a → sumVar K p.1 p.2.den a = 1) →
-      (∀ p ∈ leaves, ∀ f ∈ fs, p.1 ∉ f.scope) →
-      (leaves.Pairwise (fun p q => p.1 ∉ q.2.scope ∧ q.1 ∉ p.2.scope)) →
-      ∀ a, Bounded K a →
-        sumOut K (leaves.map (·.1)) (jointDen (leaves.map (·.2) ++ fs)) a = jointDen fs a
-  | [], _, _, _, a, _ => rfl
-  | p :: ps, hnorm, hfresh, hpair, a, ha => by
-    have hp := List.pairwise_cons.mp hpair
-    simp only [List.map_cons, List.cons_append, sumOut]
-    have ih := C16_engine_history K fs ps
-      (fun q hq => hnorm q (List.mem_cons_of_mem _ hq))
-      (fun q hq => hfresh q (List.mem_cons_of_mem _ hq)) hp.2
-    rw [← ih a ha]
-    apply sumOut_congr
-    · intro b hb
-      apply C01_barren_leaf K p.2 _ p.1 (hnorm p List.mem_cons_self) _ b hb
-      intro f hf
-      rcases List.mem_append.mp hf with h | h
-      · obtain ⟨q, hq, rfl⟩ := List.mem_map.mp h
-        exact (hp.1 q hq).1
-      · exact hfresh p List.mem_cons_self f h
-    · exact ha
+theorem C16_engine_history (K : Var → Nat) (fs : List Factor) (leaves : List (Var × Factor))
+    (hnorm : ∀ p ∈ leaves, ∀ a, Bounded K a → sumVar K p.1 p.2.den a = 1)
+    (hfresh : ∀ p ∈ leaves, ∀ f ∈ fs, p.1 ∉ f.scope)
+    (hpair : leaves.Pairwise (fun p q => p.1 ∉ q.2.scope))
+    (a : Asg) (ha : Bounded K a) :
+    sumOut K (leaves.map (·.1)) (jointDen (leaves.map (·.2) ++ fs)) a = jointDen fs a :=
+  leaves_sum_out K fs leaves hnorm hfresh hpair a ha
 
 example : ([Factor.mk [0] [2] #[1, 2], Factor.mk [1] [2] #[3, 4]] : List Factor).Perm
     [Factor.mk [1] [2] #[3, 4], Factor.mk [0] [2] #[1, 2]] := List.Perm.swap _ _ _
